@@ -47,7 +47,19 @@ class C06(Prop):
 
     def streams(self, rng, tier):
         n = 240 if tier == 'quick' else scale(6000)
-        cases = [self._strip(G.gen_case(rng)) for _ in range(n)]
+        cases = []
+        self._infos = {}
+        saved_ct = G.CTYPES
+        try:
+            for k in range(n):
+                # every third model has pointer-typed externs (compilable against the mock runtime): text pasted
+                # around a C++ type must still be a type
+                G.CTYPES = saved_ct if k % 3 else ['int', '::vt::Cell*', 'const ::vt::Cell*', '::vt::Ext<1>']
+                c = G.gen_case(rng)
+                self._infos[case_hash([c['src'], c['cfg']])] = c['_info']
+                cases.append(self._strip(c))
+        finally:
+            G.CTYPES = saved_ct
         # witnesses of recorded findings: ports `api`/`Api`
         c = G.gen_case(rng, want_mc=False)
         for _ in range(50):
@@ -61,6 +73,8 @@ class C06(Prop):
             for p in comp['ports']:
                 if p['name'] in ('api', 'Api') and p['name'] not in ren.values():
                     p['name'] = p['name'] + '9'
+                if p['name'] in ren:
+                    p['injected'] = False       # both ports are exposed: the witness must show the collision
                 p['name'] = ren.get(p['name'], p['name'])
             c['ast'] = M.enc_root(c['src'])
             c['cfg']['ports']['rsts'], c['cfg']['ports']['rmts'] = {'w': 'all'}, {'w': 'none'}
@@ -181,6 +195,36 @@ class C06(Prop):
             if not ok:
                 failures.append({'case': {'prefixes': [None, ['Pfx']]}, 'impl': log[-800:], 'model': None,
                                  'failed': ['support headers with different prefixes do not coexist in one translation unit'], 'noshrink': True})
+            # B0. cases of the text stream on which the generated text is not what the model says are compiled
+            # first (verbatim): that is the search for a concrete uncompilable result
+            focus = []
+            # pointer-typed models first: they are where pasted qualifiers go wrong
+            cands = sorted(ctx.get('stream_disagreements', []),
+                           key=lambda r: 0 if '*' in json.dumps((r.get('case') or {}).get('src', '')) else 1)
+            for r in cands:
+                c = r.get('case') or {}
+                info = getattr(self, '_infos', {}).get(case_hash([c.get('src'), c.get('cfg')]))
+                if info is None or c['cfg'].get('multiclient') or not info['comp_ns']:
+                    continue
+                fc = dict(c, op='build', _info=info)
+                if all(case_hash([fc['src'], fc['cfg']]) != case_hash([x['src'], x['cfg']]) for x in focus):
+                    focus.append(fc)
+                if len(focus) >= 6:
+                    break
+            if focus:
+                firs = [X.model_ir(c) for c in focus]
+                # the driver's static_asserts come from the model's prediction; a case the model refuses is skipped
+                fprogs = X.build_programs([c for c, ir in zip(focus, firs) if ir is not None],
+                                          [ir for ir in firs if ir is not None], guard_shim=False)
+                compiles += len(fprogs)
+                for c, p in zip([c for c, ir in zip(focus, firs) if ir is not None], fprogs):
+                    try:
+                        if p.ok or p.impl_err:
+                            continue
+                        failures.append({'case': X.strip(c), 'impl': p.log.replace('‘', "'").replace('’', "'")[-1500:], 'model': None,
+                                         'failed': ['the returned files do not compile/link as they are'], 'noshrink': True})
+                    finally:
+                        p.cleanup()
             # B. whole programs, files verbatim (no guard shim): shell used from a second TU and linked
             nprog = 8 if tier == 'quick' else scale(160)
             cases = []
@@ -188,7 +232,14 @@ class C06(Prop):
             tries = 0
             while len(cases) < nprog and tries < 5000:
                 tries += 1
-                c = G.gen_case(rng, want_mc=True if not have_k5 else None)
+                saved_ct = G.CTYPES
+                if have_k5 and tries % 3 == 0:
+                    # pointer-typed externs: text pasted around a C++ type (const, &) must still be a type
+                    G.CTYPES = ['int', '::vt::Cell*', 'const ::vt::Cell*', '::vt::Ext<1>']
+                try:
+                    c = G.gen_case(rng, want_mc=True if not have_k5 else None)
+                finally:
+                    G.CTYPES = saved_ct
                 mc = c['cfg']['multiclient']
                 if mc:
                     p, itf = X.port_events(c['_info'], mc['port'])
